@@ -122,6 +122,14 @@ func (p *Program) nameLiterals() {
 							if fl, ok := kv.Value.(*ast.FuncLit); ok {
 								litAt[fl.Pos()] = base + "." + id.Name
 							}
+							// a literal passed to a builder call (Impl: setOperationImpl(func(...){...}, true))
+							if call, ok := kv.Value.(*ast.CallExpr); ok {
+								for ai, a := range call.Args {
+									if fl, ok := a.(*ast.FuncLit); ok {
+										litAt[fl.Pos()] = fmt.Sprintf("%s.%s.arg%d", base, id.Name, ai)
+									}
+								}
+							}
 							return true
 						})
 					}
